@@ -16,6 +16,7 @@ Require Import ZV.Model.GenShape ZV.Proofs.GenShapeProofs ZV.Model.Lexer.
 Require ZV.Model.Reader ZV.Properties.C13.
 Require Import ZV.Model.CallCheck ZV.Proofs.CallCheckProofs.
 Require Import ZV.Model.Destructure ZV.Proofs.DestructureProofs.
+Require ZV.Model.PrattTypes ZV.Model.Pratt ZV.Model.PrattShape ZV.Proofs.PrattShapeProofs ZV.Generated.InfixTable.
 
 Theorem gen_total : forall omacro oinfix ofile fuel xs s,
   load omacro oinfix ofile fuel xs <> RCrash s.
@@ -81,6 +82,96 @@ Proof. vm_compute. reflexivity. Qed.
 Example ex_assign_ok : assign_arrays [TSym 1; TSym 2] [10; 20] = DOk [(1, 10); (2, 20)].
 Proof. vm_compute. reflexivity. Qed.
 Example ex_bindlist_surplus : bindlist [1; 2] [10; 20; 30] = DOk [(1, 10); (2, 20)].
+Proof. vm_compute. reflexivity. Qed.
+
+(* ---- the infix (Pratt) front end, zygo/pratt.go (Model/PrattShape.v; GenShape's infix oracle) ----
+   For EVERY token list (any length, any nesting of selector arrays, well-formed or not, every fuel) the
+   model of InfixExpandArray - LabeledFor, Expression with its CnodeStack, the led dispatch and its
+   `default: panic`, the if / for / break / continue munchers, normalizeArraySelector, lowerGoFor,
+   lowerRangeFor with header[assignPos+1] and header[assignPos+2:], parseRangeTargets, lowerRangeBinding -
+   never reaches a panic site.  Stated for any operator table and guard constants satisfying two
+   decidable conditions, which the table and the constants the translator reads from pratt.go satisfy. *)
+Module PS := ZV.Model.PrattShape.
+Module PP := ZV.Proofs.PrattShapeProofs.
+Module PT := ZV.Model.PrattTypes.
+Module IT := ZV.Generated.InfixTable.
+
+Theorem pratt_total_any_table : forall E K C, PP.table_safe E K = true -> PP.guards_ok C = true ->
+  forall efuel fuel ts s, PS.stmts E K C efuel fuel ts <> PS.PCrash s.
+Proof. intros E K C H1 H2 efuel fuel ts s. exact (PP.stmts_no_crash E K C H1 H2 efuel fuel ts s). Qed.
+Print Assumptions pratt_total_any_table.
+
+Theorem pratt_table_conditions :
+  PP.table_safe IT.infix_entries IT.infix_lbp = true /\ PP.guards_ok IT.for_consts = true.
+Proof. exact (conj PP.generated_table_safe PP.generated_guards_ok). Qed.
+Print Assumptions pratt_table_conditions.
+
+Theorem pratt_total : forall efuel fuel ts s, PS.expand_gen efuel fuel ts <> PS.PCrash s.
+Proof. exact PP.expand_gen_no_crash. Qed.
+Print Assumptions pratt_total.
+
+(* Pratt.Expression at every non-negative right binding power, in every parser state (remaining tokens,
+   depth of CnodeStack): no panic, and the stack depth is restored when it returns a tree *)
+Theorem pratt_expression_total : forall fuel rbp ts d s, BinInt.Z.le BinNums.Z0 rbp ->
+  PS.expr IT.infix_entries IT.infix_lbp IT.for_consts fuel rbp ts d <> PS.PCrash s.
+Proof. intros fuel rbp ts d s H. exact (PP.expr_no_crash _ _ _ PP.generated_table_safe PP.generated_guards_ok fuel rbp ts d s H). Qed.
+Print Assumptions pratt_expression_total.
+
+Theorem pratt_stack_balanced : forall fuel rbp ts d ts' d', BinInt.Z.le BinNums.Z0 rbp ->
+  PS.expr IT.infix_entries IT.infix_lbp IT.for_consts fuel rbp ts d = PS.POk (ts', d') -> d' = d.
+Proof. intros fuel rbp ts d ts' d' H. exact (PP.expr_stack_balanced _ _ _ PP.generated_table_safe PP.generated_guards_ok fuel rbp ts d ts' d' H). Qed.
+Print Assumptions pratt_stack_balanced.
+
+(* normalizeArraySelector on any selector array, forOpMunchRightWithLabel on any token list *)
+Theorem pratt_selector_total : forall fuel t s,
+  PS.norm_sel IT.infix_entries IT.infix_lbp IT.for_consts fuel t <> PS.PCrash s.
+Proof. exact (PP.norm_sel_no_crash _ _ _ PP.generated_table_safe PP.generated_guards_ok). Qed.
+Print Assumptions pratt_selector_total.
+
+Theorem pratt_for_total : forall fuel ts s,
+  PS.for_munch IT.infix_entries IT.infix_lbp IT.for_consts fuel ts <> PS.PCrash s.
+Proof. exact (PP.for_munch_no_crash _ _ _ PP.generated_table_safe PP.generated_guards_ok). Qed.
+Print Assumptions pratt_for_total.
+
+(* generator.go GenerateInfix = InfixArgsToArray("infix", args) + InfixExpandArray: for every argument list of
+   the (infix ...) form (any number and kind of arguments) and every token content, no panic site; the
+   infixExpand builder can panic only at args[0] of an empty argument list (it runs behind the recover of
+   CallUserFunction: the script sees an error) *)
+Theorem generate_infix_total : forall efuel fuel args s, PS.infix_form_gen false efuel fuel args <> PS.PCrash s.
+Proof. exact PP.infix_form_no_crash. Qed.
+Print Assumptions generate_infix_total.
+
+Theorem infix_expand_builder_partial : forall efuel fuel args s,
+  PS.infix_form_gen true efuel fuel args = PS.PCrash s -> args = nil /\ s = PS.SArgsIndex.
+Proof. exact PP.infix_expand_crashes_only_without_argument. Qed.
+Print Assumptions infix_expand_builder_partial.
+
+Example ex_infix_expand_no_argument : PS.infix_form_gen true 5 5 nil = PS.PCrash PS.SArgsIndex.    (* (infixExpand) *)
+Proof. vm_compute. reflexivity. Qed.
+Example ex_infix_two_arguments : PS.infix_form_gen false 5 5 [PS.AOtherArg; PS.AOtherArg] = PS.POk 0.   (* (infix 1 2) is nil *)
+Proof. vm_compute. reflexivity. Qed.
+
+(* non-vacuity: the conditions matter (a table passing a negative right binding power panics in the led
+   dispatch on `1 ! 2 3`), a weakened guard of lowerRangeFor panics on `for i = { }`, and ordinary
+   statements parse *)
+Example ex_pratt_unsafe_table :
+  PS.stmts PP.bad_entries PP.bad_lbp IT.for_consts 10 10
+    PP.toks_int_bang_int_int = PS.PCrash PS.SLedDispatch.
+Proof. vm_compute. reflexivity. Qed.
+Example ex_pratt_weak_guard :          (* for i = { }  with the guard  len(header) <= assignPos  *)
+  PS.stmts IT.infix_entries IT.infix_lbp (PT.mkFor 2 true 0 1 2) 10 10 PP.toks_for_i_assign_body = PS.PCrash PS.SHeaderIndex.
+Proof. vm_compute. reflexivity. Qed.
+Example ex_pratt_for_malformed :       (* the same statement with the guard of the source: not a range loop, and `i =` parses *)
+  PS.expand_gen 10 10 PP.toks_for_i_assign_body = PS.POk 1.
+Proof. vm_compute. reflexivity. Qed.
+Example ex_pratt_range_ok :            (* for k, v := range h { } ; a[1:2] = 3 *)
+  PS.expand_gen 20 20 PP.toks_range_and_slice = PS.POk 2.
+Proof. vm_compute. reflexivity. Qed.
+Example ex_pratt_range_missing_source : (* for i := range { } *)
+  PS.expand_gen 10 10 PP.toks_range_no_source = PS.PErr.
+Proof. vm_compute. reflexivity. Qed.
+Example ex_pratt_two_colons :          (* a[1:2:3] *)
+  PS.expand_gen 10 10 PP.toks_two_colons = PS.PErr.
 Proof. vm_compute. reflexivity. Qed.
 
 (* non-vacuity: ordinary forms generate, malformed ones are errors, not crashes *)
